@@ -27,6 +27,31 @@ CLAIMS = {
          "by one; ranges of diagnostics of multi-file projects are not checked (no file attribution). Known findings: polymorphic recursion never returns; "
          "link_cores panics on a .core whose core_ir was edited (three sites).",
     technique="Lean 4 proof of the parser's termination logic + op-sequence correspondence + crash/hang search in child processes (fault enumeration)"),
+ "C03": dict(
+    category="proof",
+    text="Lean theorems over the type-consistency judgement Wt.errs (Model/Wt.lean: every node's annotation agrees with its children, "
+         "with the binder of a variable, with the schemes of the program's functions / builtins / externs (references are instances, "
+         "matched by matchTy), with enum/struct definitions instantiated at the annotation's type arguments, with trait method "
+         "signatures, operators and branch types) and over the model of mono.rs: subst_preserves_wt (for every expression, substitution "
+         "and environment with closed definitions: a type-consistent expression stays type-consistent when a type substitution is applied "
+         "to all its annotations and to its environment), getTy_subst, scheme_instance_stable, subst_closed (a closed covering "
+         "substitution leaves no TParam), collapse_noTApp (phase 2 of mono returns application-free types for known generic heads, for "
+         "every type constructor the Rust descends into), collapse_preserves. The property itself is decided on the implementation's own "
+         "outputs: Wt.errs and the closedness predicates are evaluated on every REAL Core/Mono/Lift/ANF dump of every accepted corpus and "
+         "generated program, each with the signature environment dumped from the real genv/monoenv/liftenv (annotations the dumps drop are "
+         "cross-checked in the harness), and an ill-typed stream (one type error of 11 kinds injected at one forced position of a "
+         "well-typed generated program, plus 32 hand-written programs around wildcard array lengths, fields, arities, arguments) must be "
+         "rejected by the real compiler in the typer stage.",
+    design_ref="§5 C03, §C03 — as built",
+    note="Proved: the theorems above about Wt / the mono model. Validated only: that the real stage dumps satisfy the judgement (oracle on "
+         "every accepted program of the run, not a theorem about the typer), that ill-typed programs are rejected (sampled by injection). "
+         "Not done: matchc/anf/lift preservation theorems and soundness of Sem w.r.t. wt; the typer's inference (3 300 lines) is not "
+         "modelled. Trusted: Lean kernel, our reading of type consistency in Wt.errs, harness dumps of the environments, the generator's "
+         "own typing. Fixed: a value coerced to dyn Trait twice inside a call argument. Known findings: after lambda lifting closures are "
+         "structs while the positions they flow through keep function types (Lift/ANF not type-consistent); phantom type parameters "
+         "survive mono (shared with C07).",
+    technique="Lean 4 proof (structural induction over the nested IR and over types) + executable judgement run on the real stage "
+              "dumps + type-error injection against the real compiler"),
  "C05": dict(
     category="proof",
     text="Lean theorems over a model of resolve_expr/resolve_pat: the state-threading resolver refines the environment-passing "
@@ -38,6 +63,39 @@ CLAIMS = {
     note="Trusted: Lean kernel (axioms printed in evidence), harness AST→scope-tree dump and HIR walk, the generator's coverage of scope shapes. "
          "The typer's own scoping (LocalTypeEnv) is exercised only through the acceptance oracle.",
     technique="Lean 4 proof (structural induction over the nested AST) + differential correspondence with the Rust resolver"),
+ "C07": dict(
+    category="proof",
+    text="Lean theorems over a model of mono.rs (Model/Mono.lean: subst_ty, unify, SubstKey, spec_name_for via the C19 name model, "
+         "ensure_instance, mono_expr incl. ETraitCall resolution and generic functions used as values, the work-list loop, "
+         "TypeMono::collapse_type_apps/ensure_instance, rewrite_expr_types). Proved for every program, substitution and state: "
+         "unify_sound / unify_binds (a successful unify instantiates the template to the actual type, only extends the substitution and "
+         "binds every parameter of the template; all type constructors the Rust handles), subst_closed, worklist_bijection / "
+         "instances_unique (instance keys pairwise distinct, queued = keys, emitted ++ pending names = instance names in order at every "
+         "iteration; on return one emitted function per (function, SubstKey) and nothing pending), monoExpr_is_pure (the emitted expression "
+         "and the requests do not depend on the instance table) and instance_name_of_key, monoExpr_no_param / no_residue_partial (every "
+         "emitted function is the specialisation of a program function at a substitution with parameter-free values, and is parameter-free "
+         "whenever the substitution covers the function; call_covers: it does at a saturated call), mono_preserves_partial / "
+         "instance_behaves_as_generic / mono_preserves_run_partial (under Sem, for every fuel, the specialised program computes exactly what "
+         "the generic one computes - first-order fragment with direct calls of builtins, monomorphic and generic functions), "
+         "traitcall_commutes / traitcall_resolution (the statically resolved trait_impl#Tr#Ty#m is the function dynamic dispatch on the "
+         "runtime value selects), mono_terminates_partial / mono_terminates_of_closed_list (finite instance universe => the work list "
+         "empties within |universe| iterations) and polyrec_no_finite_universe (no such universe exists for polymorphic recursion). "
+         "Tied to the Rust by a correspondence run: the model on the REAL Core dump and genv type definitions must print the REAL Mono dump "
+         "(functions in order, signatures, bodies, mono_enums/mono_structs/mono_funcs), panic exactly where the real pass panics and run out "
+         "of fuel exactly where the real pass does not return (child process with watchdog). Independent oracles on the real outputs: real "
+         "Core vs real Mono under Sem, closedness (no TParam/TApp/TVar/ETraitCall) of the real Mono/Lift/ANF dumps, pairwise distinct "
+         "function names, no reference to an unspecialised generic function, no panic, termination watchdog.",
+    design_ref="§5 C07, §C07 — as built",
+    note="Proved: the theorems above about the Lean model. _partial: no_residue assumes the instance substitution covers the function (false "
+         "for a type parameter that occurs only in a body - known finding); mono_preserves is proved for the closure-free fragment with "
+         "direct calls and for phase 1 (specialisation), the link from `mono`'s own output to its hypotheses is shown by evaluation on an "
+         "excerpt, phase 2 (type instances) and closures/dyn/fn values are validated by the Sem oracle only; termination assumes a finite "
+         "instance universe. Validated only: model = Rust (differential), instance-name injectivity (owned by C19). Trusted: Lean kernel, "
+         "harness dumps (dump.rs, c07.rs), DecSyntax/EncSyntax, Sem for the behaviour oracle, the generator's coverage. "
+         "Fixed: unify lacked Vec/dyn, collapse_type_apps skipped Vec, generic functions used as values were not specialised. "
+         "Known findings: polymorphic recursion never terminates; a type parameter that occurs only in a function body survives mono.",
+    technique="Lean 4 proof (structural induction over the nested IR, work-list invariants, fuel-indexed simulation under Sem) + "
+              "differential correspondence with mono::mono + independent oracles on the real stage dumps"),
  "C09": dict(
     category="proof",
     text="Lean theorems over Model/Anf.lean, a model of anf.rs (anf / anf_imm / anf_list / compile_match_arms_to_anf / anf_file in the same "
@@ -101,6 +159,36 @@ CLAIMS = {
          "ANF/Go lowering of the tree is covered by C01's stage-wise oracle, not here. Trusted: Lean kernel, Sem as the meaning of Core, "
          "harness TAST walk and dumps, the driver's alpha-equivalence and value enumeration.",
     technique="Lean 4 proof (induction over fuel / rows / patterns) + differential correspondence with the real match compiler + first-match oracle on the real Core"),
+ "C08": dict(
+    category="proof",
+    text="Lean theorems over a model of lift.rs (Model/Lift.lean: Scope layers, transform_expr with the pass state threaded in the Rust's "
+         "traversal order, collect_captured, transform_closure with closure_env_<ctx>_<n> / <name>_<i> / inherent#S#S#apply naming, call "
+         "rewriting, return-type and struct-field-type rewriting, lambda_lift) on the unified Syntax.Expr, against the shared semantics Sem: "
+         "captures_exact / captures_mem / captures_nodup / captures_types (for EVERY body, parameter list and scope, collect_captured = free "
+         "variables of the body minus the parameters, restricted to the scope, each once, in first-occurrence order, typed by the scope entry), "
+         "lift_no_closures (for every input the output has no closure node), lift_preserves_partial (for every program whose lifting passes the "
+         "decidable structural check DirectFlow, every source run under Sem that ends normally or panics is reproduced by the lifted program - "
+         "same stdout, status, extern events - for every sufficiently large fuel; proved by a simulation over ALL of Sem (every node kind, all "
+         "builtins, the Ref store, go, dyn dispatch) by induction on fuel in fuel-monotone form, closure values related to (environment struct, "
+         "apply function) pairs), accepted_pair_preserves (the same for any pair the check accepts - it is run as a validator on the REAL Mono/Lift "
+         "pair of every checked program), ref_sharing (related references are the same store location and the environment struct holds, for every "
+         "captured variable bound to a Ref, that very location). Tie (L1, exact, names included): the model lifts the REAL Mono file in the REAL "
+         "pre-lift environment and its functions, closure env structs, rewritten user structs and registered function types must equal the REAL "
+         "LiftFile/GlobalLiftEnv node by node, for the corpus and for seeded closure-centred programs (every capture set, nesting up to 4, every "
+         "flow of a function value). Oracle independent of the model: the REAL Mono, Lift and ANF dumps under Sem and the REAL Go under Go.Sem must "
+         "agree whenever Go.Check accepts the Go.",
+    design_ref="§5 C08, 'C08 — as built'",
+    note="PARTIAL: DirectFlow is a hypothesis decided per program (by running the verified check on the model's output / the real output), not a "
+         "theorem about a syntactic class; the evidence reports its ratio (all generated flows except two closures sharing one struct field). The "
+         "preservation theorem is about Sem, where calling an environment struct value is defined for every flow; at the Go level closures passed "
+         "as arguments, chosen by a branch, stored in arrays / Ref cells, curried, or returned before the maker is lifted give ill-typed Go - C02's "
+         "known findings, counted here per flow and never compared behaviourally. Known finding of this check: two closures in the same struct "
+         "field make the Lift IR call the wrong apply function. Proved about the model; model = lift.rs is validated differentially (L1), not "
+         "proved. Trusted: Lean kernel, Sem/Go.Sem/Go.Check, harness dumps (the dump omits the type stored on if/let/while/go/literal nodes; the "
+         "harness checks on every real tree that the model's recomputation agrees), tools/extract.py (naming constants and shape anchors of "
+         "lift.rs regenerated on every run), the hypothesis that no local or user function is spelled like an apply function or env parameter (C19).",
+    technique="Lean 4 proof (mutual structural induction; simulation by induction on fuel) + verified validator on real pass output + "
+              "differential correspondence with lift.rs + stage-wise behavioural oracle"),
  "C10": dict(
     category="proof",
     text="Lean theorems over a model of the integer-literal pipeline and of the operator mapping, quantified over the tables regenerated from the "
@@ -285,10 +373,20 @@ CLAIMS = {
          "emitted Go subset). For every accepted corpus and generated program the REAL Core, Mono, Lift and ANF dumps are run under Sem "
          "and the REAL Go AST under Go.Sem; stdout and the way the run ends must agree stage by stage (the first divergent stage names "
          "the guilty pass) and with the outputs recorded from real Go. The pass-level preservation theorems live under C06-C10; this check "
-         "is the glue between them and the code.",
+         "is the glue between them and the code. "
+         "The reference is SOURCE-LEVEL: the REAL ast::File(s) of the project (repository's own parser + lowering, every package) are run "
+         "under SrcSem (Model/SrcSem.lean), a dynamically typed big-step interpreter of the surface language that consults nothing the "
+         "front end computes (lexical scoping as C05 states it, binding by FIELD NAME for struct patterns/literals, first match, runtime "
+         "dispatch of the three method-call forms, unsuffixed literals = int32); a src/core divergence names the front end (derive, name "
+         "resolution, typer elaboration, match compilation). Where a value does not reveal what types decide SrcSem answers "
+         "`unsupported:<why>` and the check falls back to Core for that program (evidence: counts and reasons). Proved about SrcSem "
+         "(Props/C01src.lean): struct patterns and struct literals are invariant under permutation of their written fields, initialisers "
+         "run in written order, environments are only passed down, lookup = the C05 resolver model's lookup.",
     design_ref="§5 C01",
     note="Trusted: Sem/Go.Sem as definitions (Go.Sem reproduces all recorded corpus outputs), harness IR serialisers, the generator's coverage. "
-         "Not covered: go_pprint.rs (AST is dumped before printing), real goroutine interleavings, Go's float formatting.",
+         "Not covered: go_pprint.rs (AST is dumped before printing), real goroutine interleavings, Go's float formatting. "
+         "SrcSem starts at ast::File: CST->AST lowering itself (operator association, literal decoding) is C11/C12's; SrcSem is validated "
+         "like Go.Sem, by reproducing every recorded corpus output it can decide.",
     technique="translation validation with Lean-defined executable semantics (Sem vs Go.Sem) on real stage dumps"),
  "C02": dict(
     category="translation_validation",
@@ -300,6 +398,55 @@ CLAIMS = {
     note="Trusted: Go.Check as our reading of the Go spec (accepts the 73 corpus programs real Go accepted, rejects 058 as real Go did); "
          "goast dump; go_pprint.rs not covered.",
     technique="translation validation with a Lean-defined Go type/scope checker on the real Go AST"),
+ "C14": dict(
+    category="proof",
+    text="Lean theorems over Sem (Model/Sem.lean) and Model/Alpha.lean about exactly the two things in which the Core handed to mono/lift/anf/go differs "
+         "between the two ways of compiling a project - the order in which the packages' functions are concatenated (discovery order vs topological order) "
+         "and the numbering of compile_match's temporaries (one Gensym for the program vs one per package): run_perm_invariant (if function names are pairwise "
+         "distinct, Sem.run is invariant under every permutation of the function list), run_alpha_invariant_partial (renaming every function by its own renaming "
+         "does not change Sem.run when the renaming is injective on the function's names and every moved variable is let-bound inside the body; partial: closure-free "
+         "Core), separate_eq_whole_validated (a decidable validator on two Core programs - every function has a renamed twin, no extra function, dyn tables answer "
+         "alike, hypotheses of the renaming theorem - is sound: it accepts only programs that run alike), check_build_same_interface (in the C15 model of the "
+         "artefact protocol check and build accept together, write the same .interface, and the interface inside the .core is that file). Tie: on every run the "
+         "validator is evaluated by gomlmodel on the real linked Core and the real whole-program Core of every accepted project with the per-function shift of "
+         "temporaries as renaming; outside the closure-free fragment an unverified structural comparison (renamed function = function) is used instead. "
+         "Model-free oracle on the real pipeline: the 8 corpus package projects and generated multi-package projects (all DAG shapes on <= 5 packages, cross-package "
+         "traits, impls, generic functions with bounds, generic enums/structs instantiated across packages, closures, multi-file packages, ill-typed variants) are "
+         "compiled whole and separately in every topological order (sampled in the quick tier) with .interface/.core written to and re-read from JSON files; "
+         "acceptance must agree (same stage when rejected), Go.Sem of both Go ASTs and Sem of both Cores must give the same outcome, Go.Check must agree, and "
+         "check_package / build_package must serialise the same interface bytes.",
+    design_ref="§5 C14, 'C14 — as built'",
+    note="For programs with closures (about three quarters of the generated projects) equality of behaviour is observed under Sem/Go.Sem, not proved: a closure value "
+         "carries its body and environment, so the renaming theorem needs a relation on values instead of equality. The stages after Core (mono, lift, anf, go) are "
+         "the same code in both ways and are covered by the behavioural oracle only. Trusted: Lean kernel; Sem/Go.Sem/Go.Check; the Core/Go dumps and their decoders; "
+         "the project generator. No defect found on the tree.",
+    technique="Lean 4 proof (induction on fuel over the mutual interpreter; verified validator) + differential correspondence of the real Core + behavioural oracle over all topological orders"),
+ "C18": dict(
+    category="proof",
+    text="Lean theorems over Model/Derive.lean, which holds what the generated to_json / to_string return as functions on values (toJson, toString, "
+         "following build_struct_json_body / build_enum_json_body / build_struct_body / build_enum_body / concat_parts), the runtime's json_escape_string "
+         "(jsonQuote), Go's %q (goQuote, parametric in unicode.IsPrint), an RFC 8259 reader (jsonRead), the declarative structure (encode / decode), and the "
+         "generated method bodies as an AST with the derive's binder choice (genJson, genString, scoped). Proved for all definitions, values and strings: "
+         "toJson_wellformed_partial (for every set of non-generic definitions with identifier names, every well-typed value - any nesting, recursion through "
+         "enums - and every string, jsonRead (toJson v) = some (encode v): an object per struct in field order, tag / fields per variant), "
+         "toJson_roundtrip_partial (decoding that structure at the value's type gives the value back), json_escape_total (json_escape_string followed by a JSON "
+         "reader is the identity on all strings), json_escape_is_runtime_table (the character-wise escaper of the model equals the chain of strings.ReplaceAll "
+         "calls regenerated from go/runtime.rs), goQuote_json_safe_partial (what the helper used to be, %q, is JSON exactly on a decidable set of runes; \\a \\v "
+         "\\xNN \\UNNNNNNNN are not, as examples), toString_shape (the generated part list equals the intercalate rendering Name { f: v } / Enum::Variant(v)), "
+         "generated_code_computes (the generated method bodies, as the AST the derive appends, evaluate to toJson / toString under the arm's bindings), "
+         "derive_total (for every definition the generated bodies are well-scoped: binders pairwise distinct, every variable bound, no helper of the regenerated "
+         "dispatch tables shadowed by a binder or by self). Tied to the Rust three ways on every run: (1) translator - Gen/Derive.lean (primitive_to_string_fn, "
+         "call_to_json arms, binder prefix, json_escape_string replacement table) with shape assertions on every literal piece of the four body builders; "
+         "(2) L1 on the derive itself - the impl blocks derive::expand appends to generated programs, serialised, must equal genString / genJson; (3) L1 on "
+         "behaviour - stdout of the real Go AST under Go.Sem and of the real Core under Sem must equal the model's text. Model-free oracle: every printed to_json "
+         "line must parse with Python's json module to the value a declarative Rust writer (serde_json for strings) gives, and with jsonRead to encode; to_string "
+         "must equal a join-style rendering computed in Rust; definitions the derive cannot handle must be rejected with a diagnostic in lower/typer.",
+    design_ref="§5 C18, 'C18 — as built'",
+    note="_partial: a float leaf is modelled by its %g text and assumed to be a JSON number (finite); non-finite floats print +Inf/-Inf/NaN - known finding. "
+         "Go's %g shortest-digit formatting (Sem.showFloat) is validated against Rust's shortest digits on random bit patterns, not proved. Trusted: Lean kernel; "
+         "Go.Sem/Sem as the meaning of the emitted Go (strings.ReplaceAll, fmt verbs); tools/extract.py; harness generator and serialisers; Python's json module. "
+         "Three defects fixed in the repository copy (primitive fields rejected in generated code; field named like a helper captured it; %q is not JSON).",
+    technique="Lean 4 proof (mutual induction over nested values; parser-printer round trip; decide over regenerated tables) + translator + differential correspondence (AST and behaviour) + independent JSON readers"),
 }
 
 NOT_YET = "not claimed yet: the model/theorems/tie for this property are still being built (see DESIGN.md §5)"
